@@ -32,3 +32,8 @@ Proof. exact no_become_no_change. Qed.
 Theorem C15_unknown_user_fails_the_task : forall db cur p,
   b_become p = true -> lookup_user db (b_user p) = None -> path_of db cur p = UserNotFound /\ module_creds db cur p = None.
 Proof. exact unknown_user_fails. Qed.
+
+
+(* command line and task keywords: `--become` applies to every task; a task's own become_user wins over `-u` *)
+Theorem C15_task_become_user_wins_over_the_command_line : forall g u, effective_user g (Some u) = u.
+Proof. exact task_user_wins. Qed.
